@@ -399,3 +399,49 @@ func FragImplClashDefs(r *core.Rng, s *Schema, tag string) []*Def {
 	}
 	return nil
 }
+
+// EnclosingTypenameOp: a nested object field given, by `typename:`, exactly the name the naming
+// scheme produces for the type of the field that ENCLOSES it.  The inner type is registered
+// while the outer one is still being built, so only the outer type's final registration can see
+// the clash (genqlient must reject this: two different types, one name).
+func EnclosingTypenameOp(s *Schema, tag string) *Def {
+	noReq := func(f *FieldDef) bool {
+		for _, a := range f.Args {
+			if a.Type.NonNull && a.Default == "" {
+				return false
+			}
+		}
+		return true
+	}
+	for _, f := range s.FieldsOf("Query") {
+		td := s.Get(f.Type.Base())
+		if td == nil || td.Kind != "OBJECT" || !noReq(f) {
+			continue
+		}
+		for _, g := range td.Fields {
+			gd := s.Get(g.Type.Base())
+			if gd == nil || gd.Kind != "OBJECT" || !noReq(g) || gd.Name == td.Name {
+				continue
+			}
+			leaf := ""
+			for _, l := range gd.Fields {
+				if s.IsLeaf(l.Type.Base()) && noReq(l) {
+					leaf = l.Name
+				}
+			}
+			if leaf == "" {
+				continue
+			}
+			op := "Hz" + tag + "Q"
+			outer := op + "W"
+			tn := strings.ToUpper(td.Name[:1]) + td.Name[1:]
+			if !strings.HasSuffix(outer, tn) {
+				outer += tn
+			}
+			return &Def{Kind: "query", Name: op, Text: fmt.Sprintf(
+				"query %s {\n  w: %s {\n    # @genqlient(typename: %q)\n    %s {\n      %s\n    }\n  }\n}\n",
+				op, f.Name, outer, g.Name, leaf)}
+		}
+	}
+	return nil
+}
